@@ -69,7 +69,13 @@ def list_placeholder_case(rng):
 
 def gen_case(rng):
     r0 = rng.random()
-    if r0 < 0.06:
+    if r0 < 0.05:
+        # markers below TWO levels of $encode (the inner transform hides them from every later check)
+        layers = [gen.nested_encode_doc(rng)]
+        if rng.random() < 0.3:
+            layers.append({"other": 3})
+        return chain_case(layers, env=gen.ENV)
+    if r0 < 0.1:
         return list_placeholder_case(rng)
     if r0 < 0.24:
         return stream_case(rng)
